@@ -1,7 +1,7 @@
 SPECIFICATION Spec
 CONSTANTS
   NUri = 2
-  NText = 2
+  NText = 3
   MaxHist = 3
   Kinds = {"open", "change0", "change1", "change2", "open_nf", "semtok", "unkreq", "unknotif", "cresp", "shutdown"}
   Emit = TRUE
